@@ -1,5 +1,6 @@
 import logging
 
+from authlib.oauth2.base import invalid_error_characters
 from authlib.jose import JoseError
 from authlib.jose import jwt
 
@@ -12,6 +13,14 @@ from ..rfc6749 import UnauthorizedClientError
 from .assertion import sign_jwt_bearer_assertion
 
 log = logging.getLogger(__name__)
+
+
+def _error_description(text):
+    # a JOSE error may quote attacker-chosen header names; OAuth2Error refuses
+    # descriptions outside the RFC 6749 character set
+    if text and invalid_error_characters(text):
+        return None
+    return text
 JWT_BEARER_GRANT_TYPE = "urn:ietf:params:oauth:grant-type:jwt-bearer"
 
 
@@ -62,7 +71,9 @@ class JWTBearerGrant(BaseGrant, TokenEndpointMixin):
             claims.validate(leeway=self.LEEWAY)
         except JoseError as e:
             log.debug("Assertion Error: %r", e)
-            raise InvalidGrantError(description=e.description) from e
+            raise InvalidGrantError(
+                description=_error_description(e.description)
+            ) from e
         return claims
 
     def resolve_public_key(self, headers, payload):
